@@ -77,6 +77,7 @@ type DB struct {
 	chkMu       sync.RWMutex  // checkpoint lock
 	opened      bool          // true if Open() was called and Close() not yet called
 	lifecycleMu sync.Mutex    // serializes Open() and Close()
+	closed      bool          // true from Close() until the next Open(); init() refuses to run
 	syncState   syncState
 	syncDiag    diagState
 
@@ -792,6 +793,7 @@ func (db *DB) Open() (err error) {
 	}
 	// Recreate context for fresh start (handles reopen after close)
 	db.ctx, db.cancel = context.WithCancel(context.Background())
+	db.closed = false
 	db.mu.Unlock()
 
 	// Validate fields on database.
@@ -896,6 +898,7 @@ func (db *DB) Close(ctx context.Context) (err error) {
 	db.f = nil
 	db.opened = false
 	db.rtx = nil
+	db.closed = true
 	// WAL continuity cannot be assumed across a close: the application may
 	// write, checkpoint or truncate the WAL before the next Open(). Forget the
 	// in-memory cursor so that the next sync re-derives it from the last LTX
@@ -1066,6 +1069,13 @@ func (db *DB) setPersistWAL(ctx context.Context) error {
 func (db *DB) init(ctx context.Context) (err error) {
 	// Exit if already initialized.
 	if db.db != nil {
+		return nil
+	}
+
+	// A closed database must not be re-initialised by an operation that was
+	// queued behind Close(): nothing would ever release its read lock and
+	// file handles again. Open() clears the flag.
+	if db.closed {
 		return nil
 	}
 
